@@ -106,3 +106,18 @@ var protoCtors = map[string]func() mangos.ProtocolBase{
 	"xsub": func() mangos.ProtocolBase { return xsub.NewProtocol() },
 	"xsurveyor": func() mangos.ProtocolBase { return xsurveyor.NewProtocol() },
 }
+
+// SendBody sends body on s; raw sockets get a well-formed header.
+func SendBody(s mangos.Socket, kind string, body []byte) error {
+	if !isRaw(kind) {
+		return s.Send(body)
+	}
+	m := mangos.NewMessage(len(body))
+	m.Body = append(m.Body, body...)
+	m.Header = append(m.Header, rawHeader(kind, 1, 1)...)
+	err := s.SendMsg(m)
+	if err != nil {
+		m.Free()
+	}
+	return err
+}
